@@ -46,6 +46,11 @@ def cases(tier, seed):
     for i in range(3 if not T else 12):
         cs.append({'gen': 'div', 'form': ['x/y', 'elementwise_divide', 's/y'][i % 3], 'N': [8, 8, 8, 8] if i % 2 == 0 else [9, 8, 10], 'Rx': [1, 2, 2, 2, 1] if i % 2 == 0 else [1, 2, 2, 1],
                    'Rz': [1, 2, 2, 2, 1] if i % 2 == 0 else [1, 2, 2, 1], 'eps': 1e-10, 'prec': 'c' if i % 3 == 1 else None, 'start': False, 'scalar': 2.0, 'vseed': 4242 + i, 'sidx': 0, 'zrange': 2.5})
+    # full-rank quotients: the middle bond of a 10x10x10x10 quotient has rank 90-100, which the rank-adaptive sweeps (+4 per sweep) reach only after ~25 sweeps
+    for i in range(3 if not T else 10):
+        cs.append({'gen': 'div', 'form': ['elementwise_divide', 'elementwise_divide', 'x/y'][i % 3], 'N': [[10, 10, 10, 10], [10, 9, 10, 10], [10, 10, 10, 9]][i % 3], 'Rx': [1, 2, 2, 2, 1],
+                   'Rz': [1, 3, 3, 3, 1], 'eps': [1e-12, 1e-11][(i // 3) % 2], 'prec': 'c' if i % 6 == 4 else None, 'start': False, 'scalar': 2.0, 'vseed': 5151 + i, 'sidx': 0,
+                   'nswp': [None, 40, None][i % 3], 'zrange': 3.0})
     # degenerate but legitimate inputs: zero numerator (0/y, 0.0/y, zeros/y) and an all-zero starting tensor
     for i in range(12 if not T else 120):
         d = rng.choice([2, 3, 4])
@@ -121,6 +126,9 @@ def run_div(case, ctx, g):
     else:
         num, tol = dn.D(x), case['eps']
         kw = {'eps': tol}
+        if case.get('nswp'):
+            kw['nswp'] = case['nswp']
+            ctx.count('opt:nswp')
         if case['prec']:
             kw['preconditioner'] = case['prec']
             ctx.count('opt:preconditioner-c')
@@ -132,7 +140,7 @@ def run_div(case, ctx, g):
             q = ctx.lib('elementwise_divide(start)', lambda a, b, c: torchtt.elementwise_divide(a, b, **dict(kw, starting_tensor=c)), x, y, start)
         else:
             q = ctx.lib('elementwise_divide', lambda a, b: torchtt.elementwise_divide(a, b, **kw), x, y)
-        opts = 'eps=%.2e prec=%s start=%s' % (tol, case['prec'], case['start'])
+        opts = 'eps=%.2e prec=%s start=%s%s' % (tol, case['prec'], case['start'], ' nswp=%d' % case['nswp'] if case.get('nswp') else '')
     key = 'divide/%s%s%s' % (form, '/prec=c' if (form == 'elementwise_divide' and case['prec']) else '', '/zero-numerator' if (case.get('zero_num') or (form == 's/y' and case['scalar'] == 0)) else ('/zero-start' if case.get('zero_start') else ''))
     what = '%s N=%s Rx=%s Ry=%s %s seed-index %d' % (form, N, case['Rx'], [int(r) for r in y.R], opts, case['sidx'])
     if isinstance(q, Raised):
@@ -147,6 +155,7 @@ def run_div(case, ctx, g):
         ctx.viol(key + '/clause=ill-formed-result', '%s: %s' % (what, e))
         return
     nn = dn.fro(num)
+    ctx.metric('max_quotient_rank', max(int(r) for r in q.R))
     err = dn.fro(dq * dy - num)
     ratio = err / (tol * nn) if nn > 0 else err / tol      # zero numerator: absolute
     ctx.metric('residual_over_tol/' + form, ratio)
